@@ -30,6 +30,7 @@ RULE = (
     "PYTHONHASHSEED values must agree; repeated parses inside one process must be == to the first. "
     "Non-trivial iff the history has >= 3 parses over >= 2 distinct texts and contains a failing parse "
     "or a thread rule; distinct = distinct history."
+    " Fixed histories also cover: numeric twins (all ticks moved by 2^61-1, 2^32, 2^53, 2^64 ...), charts with a 4999-digit number at each numeric position, long tempo maps of equal length alternating with failing twins, and clients that release every chart before the next parse (operation 'forget')."
 )
 ASSUMPTIONS = [
     "thread schedules are sampled at line granularity (pre-emption inside one C call is not explored); "
